@@ -1,11 +1,14 @@
 import OdxVerif.Proofs.CompExtByteSize
 import OdxVerif.Proofs.DynLeafMsg
 import OdxVerif.Proofs.DynLeafLeading
+import OdxVerif.Proofs.CompExtTrig
+import OdxVerif.Proofs.CompExtUsed
 /-! Compositional components, extension W11 (3): **parameters that can only be encoded while `is_end_of_pdu` is cleared**
     (a MIN-MAX-LENGTH-TYPE object whose termination sequence is written) inside structures, at any depth.
     `Comp.Ok.encode_eq` quantifies over every encoder state, which is false for such a parameter (with the flag set the
     encoder omits the terminator).  `Comp.OkM g mid` is `Comp.Ok g` with the encoder refinement restricted to states with the
-    flag cleared when `mid`; `Comp.OkM g false ↔ Comp.Ok g`.  The hosting composite guarantees the discipline:
+    flag cleared when `mid`, and to the states with a property `P` the parameter loop maintains (`ModelInv`);
+    `Comp.OkM g false (fun _ => True) ↔ Comp.Ok g`.  The hosting composite guarantees the discipline:
     `composite_codec_encode_into_pdu` clears the flag and hands the original one to the LAST parameter only, and every
     parameter leaves a cleared flag cleared (`encodeParam_keeps_eop_false`).  Hence a STRUCTURE whose `mid` parameters are not
     in last position (`MComps.midNotLast`) is an ordinary component (`DComp.structM_ok`: a full `DComp.Ok`, from every state)
@@ -14,14 +17,33 @@ import OdxVerif.Proofs.DynLeafLeading
 namespace OdxVerif.Codec
 open OdxVerif.Bits OdxVerif.OdxM
 
-/-- `Comp.Ok` with the encoder refinement restricted: if `mid`, only from states with `is_end_of_pdu` cleared -/
-structure Comp.OkM (g : Comp) (mid : Bool) : Prop where
+/-- a property of encoder states that depends on the message, the used-mask and the triggering request only and that every
+    parameter of the model preserves: what the parameter loop can promise every parameter.  `fun _ => True` (nothing: the
+    components that can be nested) and `TopInv trig` (the top level of a response to `trig`) are the instances. -/
+structure ModelInv (P : EncState → Prop) : Prop where
+  keeps : ∀ (fuel : Nat) (p : Param) (pv : Option PVal) (s : EncState) (st : Bool) (s' : EncState),
+    encodeParam fuel p pv s st = .ok ((), s') → P s → P s'
+  ext : ∀ (s t : EncState), s.msg = t.msg → s.used = t.used → s.trig = t.trig → P s → P t
+
+theorem ModelInv.trivial : ModelInv (fun _ => True) := ⟨fun _ _ _ _ _ _ _ _ => True.intro, fun _ _ _ _ _ _ => True.intro⟩
+
+/-- the triggering request is `trig` and the used-mask covers the message -/
+def TopInv (trig : Option Bytes) (s : EncState) : Prop := s.trig = trig ∧ s.msg.length ≤ s.used.length
+
+theorem ModelInv.top (trig : Option Bytes) : ModelInv (TopInv trig) where
+  keeps := fun fuel p pv s st s' h hs =>
+    ⟨by rw [encodeParam_keeps_trig fuel p pv s st s' h]; exact hs.1, encodeParam_keeps_usedCovers fuel p pv s st s' h hs.2⟩
+  ext := fun s t h1 h2 h3 hs => ⟨by rw [← h3]; exact hs.1, by rw [← h1, ← h2]; exact hs.2⟩
+
+/-- `Comp.Ok` with the encoder refinement restricted: if `mid`, only from states with `is_end_of_pdu` cleared; only from
+    states with `P` -/
+structure Comp.OkM (g : Comp) (mid : Bool) (P : EncState → Prop) : Prop where
   good : Good g.pair
   notKey : g.param.kind.isKey = false
   supplied : g.param.kind.required = true → g.sup.isSome = true
   sup_ne_none : g.sup ≠ some PVal.none
   encode_eq : ∀ (fuel : Nat), g.need ≤ fuel → ∀ (s : EncState), (g.eopOnly = true → s.isEndOfPdu = true) →
-    (mid = true → s.isEndOfPdu = false) →
+    (mid = true → s.isEndOfPdu = false) → P s →
     ∃ s', encodeParam fuel g.param g.sup s true = .ok ((), s') ∧ SameCore s' (g.pair.enc s)
   enc_cursor : ∀ (s : EncState), (g.pair.enc s).cursorByte = g.cur s.origin s.cursorByte
   cur_shift : ∀ (org c p : Nat), g.cur (org + p) (c + p) = g.cur org c + p
@@ -31,17 +53,24 @@ structure Comp.OkM (g : Comp) (mid : Bool) : Prop where
   decode_eq : ∀ (fuel : Nat), g.need ≤ fuel → ∀ (d : DecState), d.cursorBit = 0 → g.pair.fits d → g.decPre d →
     decodeParam fuel g.param d true = .ok ((g.pair.dec d).1, (g.pair.dec d).2)
 
-theorem Comp.Ok.toM {g : Comp} (h : g.Ok) (mid : Bool) : g.OkM mid :=
+theorem Comp.Ok.toM {g : Comp} (h : g.Ok) (mid : Bool) (P : EncState → Prop) : g.OkM mid P :=
   { good := h.good, notKey := h.notKey, supplied := h.supplied, sup_ne_none := h.sup_ne_none,
-    encode_eq := fun fuel hf s he _ => h.encode_eq fuel hf s he,
+    encode_eq := fun fuel hf s he _ _ => h.encode_eq fuel hf s he,
     enc_cursor := h.enc_cursor, cur_shift := h.cur_shift, dec_cursorBit := h.dec_cursorBit, dec_msg := h.dec_msg,
     dec_origin := h.dec_origin, decode_eq := h.decode_eq }
 
-theorem Comp.OkM.toOk {g : Comp} (h : g.OkM false) : g.Ok :=
+theorem Comp.OkM.toOk {g : Comp} (h : g.OkM false (fun _ => True)) : g.Ok :=
   { good := h.good, notKey := h.notKey, supplied := h.supplied, sup_ne_none := h.sup_ne_none,
-    encode_eq := fun fuel hf s he => h.encode_eq fuel hf s he (fun hm => by cases hm),
-    enc_cursor := h.enc_cursor, cur_shift := h.cur_shift, dec_cursorBit := h.dec_cursorBit, dec_msg := h.dec_msg,
-    dec_origin := h.dec_origin, decode_eq := h.decode_eq }
+    encode_eq := fun fuel hf s he => h.encode_eq fuel hf s he (fun hm => by cases hm) True.intro,
+    enc_cursor := h.enc_cursor, cur_shift := h.cur_shift, dec_cursorBit := h.dec_cursorBit,
+    dec_msg := h.dec_msg, dec_origin := h.dec_origin, decode_eq := h.decode_eq }
+
+/-- weakening: described for fewer states -/
+theorem Comp.OkM.mono {g : Comp} {mid : Bool} {P Q : EncState → Prop} (h : g.OkM mid P) (hpq : ∀ s, Q s → P s) : g.OkM mid Q :=
+  { good := h.good, notKey := h.notKey, supplied := h.supplied, sup_ne_none := h.sup_ne_none,
+    encode_eq := fun fuel hf s he hm hq => h.encode_eq fuel hf s he hm (hpq s hq),
+    enc_cursor := h.enc_cursor, cur_shift := h.cur_shift, dec_cursorBit := h.dec_cursorBit,
+    dec_msg := h.dec_msg, dec_origin := h.dec_origin, decode_eq := h.decode_eq }
 
 /-- a described parameter with its flag -/
 structure MComp where
@@ -53,9 +82,9 @@ def MComps.cs (ms : List MComp) : List Comp := ms.map MComp.c
 theorem MComps.cs_nil : MComps.cs [] = [] := rfl
 theorem MComps.cs_cons (m : MComp) (ms : List MComp) : MComps.cs (m :: ms) = m.c :: MComps.cs ms := rfl
 
-def MComps.okAll : List MComp → Prop
+def MComps.okAll (P : EncState → Prop) : List MComp → Prop
   | [] => True
-  | m :: ms => m.c.OkM m.mid ∧ MComps.okAll ms
+  | m :: ms => m.c.OkM m.mid P ∧ MComps.okAll P ms
 
 /-- parameters that need `is_end_of_pdu` cleared do not occur in the last place -/
 def MComps.midNotLast : List MComp → Prop
@@ -68,11 +97,12 @@ theorem MComps.midNotLast_tail (m : MComp) (ms : List MComp) (h : MComps.midNotL
   | nil => trivial
   | cons m2 rest => exact h
 
-theorem MComps.okAll_of_forall : (ms : List MComp) → (∀ m ∈ ms, m.c.OkM m.mid) → MComps.okAll ms
+theorem MComps.okAll_of_forall (P : EncState → Prop) : (ms : List MComp) → (∀ m ∈ ms, m.c.OkM m.mid P) → MComps.okAll P ms
   | [], _ => trivial
-  | m :: ms, h => ⟨h m (List.mem_cons_self ..), MComps.okAll_of_forall ms (fun x hx => h x (List.mem_cons_of_mem _ hx))⟩
+  | m :: ms, h => ⟨h m (List.mem_cons_self ..), MComps.okAll_of_forall P ms (fun x hx => h x (List.mem_cons_of_mem _ hx))⟩
 
-theorem MComps.ok_of_mem {ms : List MComp} (hok : MComps.okAll ms) {m : MComp} (hm : m ∈ ms) : m.c.OkM m.mid := by
+theorem MComps.ok_of_mem {P : EncState → Prop} {ms : List MComp} (hok : MComps.okAll P ms) {m : MComp} (hm : m ∈ ms) :
+    m.c.OkM m.mid P := by
   induction ms with
   | nil => cases hm
   | cons u us ih =>
@@ -91,9 +121,9 @@ theorem MComps.cs_ofComps (gs : List Comp) : MComps.cs (MComps.ofComps gs) = gs 
   | nil => rfl
   | cons g gs ih => simp only [MComps.ofComps, List.map_cons, MComps.cs_cons] at ih ⊢; rw [ih]
 
-theorem MComps.okAll_ofComps : (gs : List Comp) → Comps.okAll gs → MComps.okAll (MComps.ofComps gs)
+theorem MComps.okAll_ofComps (P : EncState → Prop) : (gs : List Comp) → Comps.okAll gs → MComps.okAll P (MComps.ofComps gs)
   | [], _ => trivial
-  | _ :: gs, h => ⟨h.1.toM false, MComps.okAll_ofComps gs h.2⟩
+  | _ :: gs, h => ⟨h.1.toM false P, MComps.okAll_ofComps P gs h.2⟩
 
 theorem MComps.midNotLast_ofComps : (gs : List Comp) → MComps.midNotLast (MComps.ofComps gs)
   | [] => trivial
@@ -102,11 +132,11 @@ theorem MComps.midNotLast_ofComps : (gs : List Comp) → MComps.midNotLast (MCom
 
 /-! ### the list lemmas of `Proofs/CompCore.lean` once more (only `encode_eq` differs) -/
 
-theorem MComps.good : (ms : List MComp) → MComps.okAll ms → Good (Comps.pair (MComps.cs ms))
+theorem MComps.good {P : EncState → Prop} : (ms : List MComp) → MComps.okAll P ms → Good (Comps.pair (MComps.cs ms))
   | [], _ => Good.nil _
   | _ :: ms, h => (h.1.good.seq (MComps.good ms h.2)).map _
 
-theorem MComps.lookupV_values (ms : List MComp) (hok : MComps.okAll ms) (hn : Comps.namesOk (MComps.cs ms)) (g : Comp)
+theorem MComps.lookupV_values {P : EncState → Prop} (ms : List MComp) (hok : MComps.okAll P ms) (hn : Comps.namesOk (MComps.cs ms)) (g : Comp)
     (hg : g ∈ MComps.cs ms) :
     lookupV g.name (Comps.values (MComps.cs ms)) = g.sup ∧
     (g.param.kind.required = true → (lookup g.name (Comps.values (MComps.cs ms))).isNone = false) := by
@@ -125,7 +155,7 @@ theorem MComps.lookupV_values (ms : List MComp) (hok : MComps.okAll ms) (hn : Co
     have := hgok.supplied hr
     cases hv : m.c.sup <;> simp_all
 
-theorem MComps.toParams_notKey (ms : List MComp) (hok : MComps.okAll ms) :
+theorem MComps.toParams_notKey {P : EncState → Prop} (ms : List MComp) (hok : MComps.okAll P ms) :
     ∀ p ∈ Comps.toParams (MComps.cs ms), p.kind.isKey = false := by
   intro p hp
   obtain ⟨g, hg, rfl⟩ := List.mem_map.mp hp
@@ -134,18 +164,18 @@ theorem MComps.toParams_notKey (ms : List MComp) (hok : MComps.okAll ms) :
 
 /-- the first encoding loop over a list of components some of which need the flag cleared: all but the last parameter are
     encoded with `is_end_of_pdu` cleared (the state the loop is started from has it cleared) -/
-theorem MComps.encode_eq : (ms : List MComp) → MComps.okAll ms → Comps.eopLast (MComps.cs ms) → MComps.midNotLast ms →
+theorem MComps.encode_eq {P : EncState → Prop} (hP : ModelInv P) : (ms : List MComp) → MComps.okAll P ms → Comps.eopLast (MComps.cs ms) → MComps.midNotLast ms →
     ∀ (values : List (String × PVal)),
     (∀ g ∈ MComps.cs ms, lookupV g.name values = g.sup ∧ (g.param.kind.required = true → (lookup g.name values).isNone = false)) →
     ∀ (fuel : Nat), Comps.need (MComps.cs ms) ≤ fuel → ∀ (eop : Bool), (Comps.anyEop (MComps.cs ms) = true → eop = true) →
-    ∀ (s : EncState), s.isEndOfPdu = false →
+    ∀ (s : EncState), s.isEndOfPdu = false → P s →
     ∃ s', encodeParams eop values fuel (Comps.toParams (MComps.cs ms)) s true = .ok ((), s') ∧
       SameCore s' ((Comps.pair (MComps.cs ms)).enc s) ∧ (s.cursorBit = 0 → s'.cursorBit = 0)
-  | [], _, _, _, values, _, fuel, hf, eop, _, s, _ => by
+  | [], _, _, _, values, _, fuel, hf, eop, _, s, _, _ => by
     simp only [MComps.cs_nil, Comps.need] at hf
     obtain ⟨f, rfl⟩ : ∃ f, fuel = f + 1 := ⟨fuel - 1, by omega⟩
     exact ⟨s, by simp [MComps.cs_nil, Comps.toParams, encodeParams, pure, run_pure], SameCore.refl _, id⟩
-  | m :: ms, hok, hlast, hmid, values, hlook, fuel, hf, eop, heop, s, hs0 => by
+  | m :: ms, hok, hlast, hmid, values, hlook, fuel, hf, eop, heop, s, hs0, hst => by
     simp only [MComps.okAll] at hok
     simp only [MComps.cs_cons, Comps.need] at hf
     obtain ⟨f, rfl⟩ : ∃ f, fuel = f + 1 := ⟨fuel - 1, by omega⟩
@@ -173,7 +203,11 @@ theorem MComps.encode_eq : (ms : List MComp) → MComps.okAll ms → Comps.eopLa
       split
       · exact ⟨rfl, rfl, rfl, rfl, rfl⟩
       · exact SameCore.refl s
-    obtain ⟨s1, hstep, hc1⟩ := hok.1.encode_eq f (by omega) sm hsmEop hsmMid
+    have hsmT : P (if ms.isEmpty then { s with isEndOfPdu := eop } else s) := by
+      split
+      · exact hP.ext s _ rfl rfl rfl hst
+      · exact hst
+    obtain ⟨s1, hstep, hc1⟩ := hok.1.encode_eq f (by omega) sm hsmEop hsmMid hsmT
     have hcb1 : s1.cursorBit = 0 := encodeParam_cursorBit _ _ _ _ _ _ hstep
     have hgt := hok.1.good
     have hgts := MComps.good ms hok.2
@@ -196,10 +230,11 @@ theorem MComps.encode_eq : (ms : List MComp) → MComps.okAll ms → Comps.eopLa
         exact hc1.trans (hgt.core _ _ hsm)
     | cons m2 rest =>
       have hs1 : s1.isEndOfPdu = false := encodeParam_keeps_eop_false f _ _ s true s1 hstep hs0
-      obtain ⟨s2, hrest, hc2, hcb2⟩ := MComps.encode_eq (m2 :: rest) hok.2 (Comps.eopLast_tail m.c _ hlast)
+      have hs1t : P s1 := hP.keeps f _ _ s true s1 hstep hst
+      obtain ⟨s2, hrest, hc2, hcb2⟩ := MComps.encode_eq hP (m2 :: rest) hok.2 (Comps.eopLast_tail m.c _ hlast)
         (MComps.midNotLast_tail m _ hmid) values
         (fun u hu => hlook u (by rw [MComps.cs_cons]; exact List.mem_cons_of_mem _ hu)) f (by omega) eop
-        (fun h => heop (by simp only [MComps.cs_cons, Comps.anyEop, List.any_cons] at h ⊢; simp [h])) s1 hs1
+        (fun h => heop (by simp only [MComps.cs_cons, Comps.anyEop, List.any_cons] at h ⊢; simp [h])) s1 hs1 hs1t
       refine ⟨s2, ?_, ?_, fun _ => hcb2 hcb1⟩
       · simp only [MComps.cs_cons, Comps.toParams, List.map_cons]
         have hstep2 : encodeParam f m.c.param m.c.sup s true = .ok ((), s1) := hstep'
@@ -212,28 +247,28 @@ theorem MComps.encode_eq : (ms : List MComp) → MComps.okAll ms → Comps.eopLa
       · simp only [MComps.cs_cons, Comps.pair, Pair.map, Pair.seq]
         exact hc2.trans (hgts.core _ _ (hc1.trans (hgt.core _ _ hsm)))
 
-theorem MComps.dec_cursorBit : (ms : List MComp) → MComps.okAll ms → ∀ (d : DecState), d.cursorBit = 0 →
+theorem MComps.dec_cursorBit {P : EncState → Prop} : (ms : List MComp) → MComps.okAll P ms → ∀ (d : DecState), d.cursorBit = 0 →
     ((Comps.pair (MComps.cs ms)).dec d).2.cursorBit = 0
   | [], _, _, h => h
   | m :: ms, hok, d, h => by
     simp only [MComps.cs_cons, Comps.pair, Pair.map, Pair.seq]
     exact MComps.dec_cursorBit ms hok.2 _ (hok.1.dec_cursorBit d h)
 
-theorem MComps.dec_msg : (ms : List MComp) → MComps.okAll ms → ∀ (d : DecState),
+theorem MComps.dec_msg {P : EncState → Prop} : (ms : List MComp) → MComps.okAll P ms → ∀ (d : DecState),
     ((Comps.pair (MComps.cs ms)).dec d).2.msg = d.msg
   | [], _, _ => rfl
   | m :: ms, hok, d => by
     simp only [MComps.cs_cons, Comps.pair, Pair.map, Pair.seq]
     rw [MComps.dec_msg ms hok.2, hok.1.dec_msg]
 
-theorem MComps.dec_origin : (ms : List MComp) → MComps.okAll ms → ∀ (d : DecState),
+theorem MComps.dec_origin {P : EncState → Prop} : (ms : List MComp) → MComps.okAll P ms → ∀ (d : DecState),
     ((Comps.pair (MComps.cs ms)).dec d).2.origin = d.origin
   | [], _, _ => rfl
   | m :: ms, hok, d => by
     simp only [MComps.cs_cons, Comps.pair, Pair.map, Pair.seq]
     rw [MComps.dec_origin ms hok.2, hok.1.dec_origin]
 
-theorem MComps.enc_cursor : (ms : List MComp) → MComps.okAll ms → ∀ (s : EncState),
+theorem MComps.enc_cursor {P : EncState → Prop} : (ms : List MComp) → MComps.okAll P ms → ∀ (s : EncState),
     ((Comps.pair (MComps.cs ms)).enc s).cursorByte = Comps.cur (MComps.cs ms) s.origin s.cursorByte
   | [], _, _ => rfl
   | m :: ms, hok, s => by
@@ -242,14 +277,14 @@ theorem MComps.enc_cursor : (ms : List MComp) → MComps.okAll ms → ∀ (s : E
     simp only [MComps.cs_cons, Comps.pair, Pair.map, Pair.seq, Comps.cur]
     rw [h2, h1, hok.1.good.origin]
 
-theorem MComps.cur_shift : (ms : List MComp) → MComps.okAll ms → ∀ (org c p : Nat),
+theorem MComps.cur_shift {P : EncState → Prop} : (ms : List MComp) → MComps.okAll P ms → ∀ (org c p : Nat),
     Comps.cur (MComps.cs ms) (org + p) (c + p) = Comps.cur (MComps.cs ms) org c + p
   | [], _, _, _, _ => rfl
   | m :: ms, hok, org, c, p => by
     simp only [MComps.cs_cons, Comps.cur, hok.1.cur_shift org c p]
     exact MComps.cur_shift ms hok.2 org _ p
 
-theorem MComps.decode_eq : (ms : List MComp) → MComps.okAll ms → ∀ (fuel : Nat), Comps.need (MComps.cs ms) ≤ fuel →
+theorem MComps.decode_eq {P : EncState → Prop} : (ms : List MComp) → MComps.okAll P ms → ∀ (fuel : Nat), Comps.need (MComps.cs ms) ≤ fuel →
     ∀ (d : DecState), d.cursorBit = 0 → (Comps.pair (MComps.cs ms)).fits d → Comps.decPre (MComps.cs ms) d →
     decodeParams fuel (Comps.toParams (MComps.cs ms)) d true =
       .ok (((Comps.pair (MComps.cs ms)).dec d).1, ((Comps.pair (MComps.cs ms)).dec d).2)
@@ -269,7 +304,7 @@ theorem MComps.decode_eq : (ms : List MComp) → MComps.okAll ms → ∀ (fuel :
     simp only [MComps.cs_cons, Comps.toParams, List.map_cons, decodeParams, bind, run_bind, h1, h2', pure, run_pure]
     rfl
 
-theorem MComps.decPre_intro : (ms : List MComp) → MComps.okAll ms → Comps.endOkAll (MComps.cs ms) →
+theorem MComps.decPre_intro {P : EncState → Prop} : (ms : List MComp) → MComps.okAll P ms → Comps.endOkAll (MComps.cs ms) →
     Comps.eopLast (MComps.cs ms) → ∀ (d : DecState),
     (Comps.anyEop (MComps.cs ms) = true → ((Comps.pair (MComps.cs ms)).dec d).2.cursorByte = d.msg.length) →
     Comps.decPre (MComps.cs ms) d
@@ -289,63 +324,71 @@ theorem MComps.decPre_intro : (ms : List MComp) → MComps.okAll ms → Comps.en
 
 /-! ### closure: a STRUCTURE whose parameters are components, `mid` ones not in last position -/
 
-/-- **closure under STRUCTURE with `mid` parameters**: the structure is an ordinary component (from every encoder state) -/
-theorem DComp.structM_ok (ms : List MComp) (hok : MComps.okAll ms) (hn : Comps.namesOk (MComps.cs ms))
-    (hlast : Comps.eopLast (MComps.cs ms)) (hmid : MComps.midNotLast ms) : (DComp.struct (MComps.cs ms)).Ok where
-  good := ((MComps.good ms hok).inOrigin).map _
-  sup_ne_none := by simp [DComp.struct]
-  originFree := (OriginFree.inOrigin (Comps.pair (MComps.cs ms))).map _
-  dec_originFree := fun _ _ => rfl
-  fits_originFree := fun _ _ => rfl
-  encode_eq := by
-    intro fuel hf s hcb heop
-    obtain ⟨f, rfl⟩ : ∃ f, fuel = f + 1 + 1 := ⟨fuel - 2, by simp only [DComp.struct] at hf; omega⟩
-    have hf' : Comps.need (MComps.cs ms) ≤ f := by simp only [DComp.struct] at hf; omega
-    let sIn : EncState := { s with origin := s.cursorByte, isEndOfPdu := false, cursorBit := 0 }
-    obtain ⟨sp, hrun, hcore, hspcb⟩ := MComps.encode_eq ms hok hlast hmid (Comps.values (MComps.cs ms))
-      (fun g hg => MComps.lookupV_values ms hok hn g hg) f hf' s.isEndOfPdu heop sIn rfl
-    obtain ⟨e, rfl⟩ : ∃ e, f = (MComps.cs ms).length + 1 + e :=
-      ⟨f - ((MComps.cs ms).length + 1), by have := Comps.need_ge (MComps.cs ms); omega⟩
-    have hlen : (Comps.toParams (MComps.cs ms)).length = (MComps.cs ms).length := by simp [Comps.toParams]
-    have hkeys := encodeKeyValues_nonkey (Comps.toParams (MComps.cs ms)) (MComps.toParams_notKey ms hok) e
-      { sp with isEndOfPdu := false } true
-    rw [hlen] at hkeys
-    have hg := MComps.good ms hok
-    refine ⟨{ sp with isEndOfPdu := false, origin := s.origin }, ?_, ?_, hspcb rfl⟩
-    · have hrun' : encodeParams s.isEndOfPdu (Comps.values (MComps.cs ms)) ((MComps.cs ms).length + 1 + e)
-          (Comps.toParams (MComps.cs ms)) { s with origin := s.cursorByte, isEndOfPdu := false, cursorBit := 0 } true
-          = .ok ((), sp) := hrun
-      simp only [DComp.struct, encodeDop, encodeComposite, bind, pure, run_bind, run_getS, run_modifyS, run_pure, run_ite, hcb,
-        Comps.known_values, Bool.false_eq_true, if_false, ne_eq, not_true_eq_false]
-      rw [hrun']
-      simp only []
-      rw [hkeys]
-    · have hin : SameCore sIn { s with origin := s.cursorByte } := ⟨rfl, rfl, rfl, rfl, rfl⟩
-      have h2 := hcore.trans (hg.core _ _ hin)
-      exact ⟨h2.1, h2.2.1, h2.2.2.1, h2.2.2.2.1, rfl⟩
-  enc_cursor := by
-    intro s
-    have h := MComps.enc_cursor ms hok { s with origin := s.cursorByte }
-    have hs := MComps.cur_shift ms hok 0 0 s.cursorByte
-    simp only [Nat.zero_add] at hs
-    show ((Comps.pair (MComps.cs ms)).enc { s with origin := s.cursorByte }).cursorByte = _
-    rw [h, hs]
-    simp only [DComp.struct]
-    omega
-  dec_cursorBit := fun d h => MComps.dec_cursorBit ms hok { d with origin := d.cursorByte } h
-  dec_msg := fun d => MComps.dec_msg ms hok { d with origin := d.cursorByte }
-  dec_origin := fun _ => rfl
-  decode_eq := by
-    intro fuel hf d hcb hfit hpre
-    obtain ⟨f, rfl⟩ : ∃ f, fuel = f + 1 + 1 := ⟨fuel - 2, by simp only [DComp.struct] at hf; omega⟩
-    have hf' : Comps.need (MComps.cs ms) ≤ f := by simp only [DComp.struct] at hf; omega
-    have hfit' : (Comps.pair (MComps.cs ms)).fits { d with origin := d.cursorByte } := hfit
-    have hrun := MComps.decode_eq ms hok f hf' { d with origin := d.cursorByte } hcb hfit' hpre
-    simp only [DComp.struct, decodeDop, decodeComposite, bind, pure, run_bind, run_getS, run_modifyS, run_pure]
-    rw [hrun]
-    rfl
+/-- the encoder refinement of a structure over `ms`, from states with the triggering request the parameters are described for -/
+theorem DComp.structM_encode_eq {P : EncState → Prop} (hP : ModelInv P) (ms : List MComp) (hok : MComps.okAll P ms)
+    (hn : Comps.namesOk (MComps.cs ms)) (hlast : Comps.eopLast (MComps.cs ms)) (hmid : MComps.midNotLast ms)
+    (fuel : Nat) (hf : (DComp.struct (MComps.cs ms)).need ≤ fuel) (s : EncState) (hcb : s.cursorBit = 0)
+    (heop : (DComp.struct (MComps.cs ms)).eopOnly = true → s.isEndOfPdu = true) (hst : P s) :
+    ∃ s', encodeDop fuel (DComp.struct (MComps.cs ms)).dop (DComp.struct (MComps.cs ms)).sup s true = .ok ((), s') ∧
+      SameCore s' ((DComp.struct (MComps.cs ms)).pair.enc s) ∧ s'.cursorBit = 0 := by
+  obtain ⟨f, rfl⟩ : ∃ f, fuel = f + 1 + 1 := ⟨fuel - 2, by simp only [DComp.struct] at hf; omega⟩
+  have hf' : Comps.need (MComps.cs ms) ≤ f := by simp only [DComp.struct] at hf; omega
+  let sIn : EncState := { s with origin := s.cursorByte, isEndOfPdu := false, cursorBit := 0 }
+  obtain ⟨sp, hrun, hcore, hspcb⟩ := MComps.encode_eq hP ms hok hlast hmid (Comps.values (MComps.cs ms))
+    (fun g hg => MComps.lookupV_values ms hok hn g hg) f hf' s.isEndOfPdu heop sIn rfl (hP.ext s sIn rfl rfl rfl hst)
+  obtain ⟨e, rfl⟩ : ∃ e, f = (MComps.cs ms).length + 1 + e :=
+    ⟨f - ((MComps.cs ms).length + 1), by have := Comps.need_ge (MComps.cs ms); omega⟩
+  have hlen : (Comps.toParams (MComps.cs ms)).length = (MComps.cs ms).length := by simp [Comps.toParams]
+  have hkeys := encodeKeyValues_nonkey (Comps.toParams (MComps.cs ms)) (MComps.toParams_notKey ms hok) e
+    { sp with isEndOfPdu := false } true
+  rw [hlen] at hkeys
+  have hg := MComps.good ms hok
+  refine ⟨{ sp with isEndOfPdu := false, origin := s.origin }, ?_, ?_, hspcb rfl⟩
+  · have hrun' : encodeParams s.isEndOfPdu (Comps.values (MComps.cs ms)) ((MComps.cs ms).length + 1 + e)
+        (Comps.toParams (MComps.cs ms)) { s with origin := s.cursorByte, isEndOfPdu := false, cursorBit := 0 } true
+        = .ok ((), sp) := hrun
+    simp only [DComp.struct, encodeDop, encodeComposite, bind, pure, run_bind, run_getS, run_modifyS, run_pure, run_ite, hcb,
+      Comps.known_values, Bool.false_eq_true, if_false, ne_eq, not_true_eq_false]
+    rw [hrun']
+    simp only []
+    rw [hkeys]
+  · have hin : SameCore sIn { s with origin := s.cursorByte } := ⟨rfl, rfl, rfl, rfl, rfl⟩
+    have h2 := hcore.trans (hg.core _ _ hin)
+    exact ⟨h2.1, h2.2.1, h2.2.2.1, h2.2.2.2.1, rfl⟩
 
-theorem DComp.structM_endOk (ms : List MComp) (hok : MComps.okAll ms) (hend : Comps.endOkAll (MComps.cs ms))
+/-- **closure under STRUCTURE with `mid` parameters**: the structure is an ordinary component (from every encoder state),
+    provided the parameters are described for every state (all kinds but MATCHING-REQUEST-PARAM are) -/
+theorem DComp.structM_ok (ms : List MComp) (hok : MComps.okAll (fun _ => True) ms) (hn : Comps.namesOk (MComps.cs ms))
+    (hlast : Comps.eopLast (MComps.cs ms)) (hmid : MComps.midNotLast ms) : (DComp.struct (MComps.cs ms)).Ok :=
+  { good := ((MComps.good ms hok).inOrigin).map _
+    sup_ne_none := by simp [DComp.struct]
+    originFree := (OriginFree.inOrigin (Comps.pair (MComps.cs ms))).map _
+    dec_originFree := fun _ _ => rfl
+    fits_originFree := fun _ _ => rfl
+    encode_eq := fun fuel hf s hcb heop => DComp.structM_encode_eq ModelInv.trivial ms hok hn hlast hmid fuel hf s hcb heop True.intro
+    enc_cursor := by
+      intro s
+      have h := MComps.enc_cursor ms hok { s with origin := s.cursorByte }
+      have hs := MComps.cur_shift ms hok 0 0 s.cursorByte
+      simp only [Nat.zero_add] at hs
+      show ((Comps.pair (MComps.cs ms)).enc { s with origin := s.cursorByte }).cursorByte = _
+      rw [h, hs]
+      simp only [DComp.struct]
+      omega
+    dec_cursorBit := fun d h => MComps.dec_cursorBit ms hok { d with origin := d.cursorByte } h
+    dec_msg := fun d => MComps.dec_msg ms hok { d with origin := d.cursorByte }
+    dec_origin := fun _ => rfl
+    decode_eq := by
+      intro fuel hf d hcb hfit hpre
+      obtain ⟨f, rfl⟩ : ∃ f, fuel = f + 1 + 1 := ⟨fuel - 2, by simp only [DComp.struct] at hf; omega⟩
+      have hf' : Comps.need (MComps.cs ms) ≤ f := by simp only [DComp.struct] at hf; omega
+      have hfit' : (Comps.pair (MComps.cs ms)).fits { d with origin := d.cursorByte } := hfit
+      have hrun := MComps.decode_eq ms hok f hf' { d with origin := d.cursorByte } hcb hfit' hpre
+      simp only [DComp.struct, decodeDop, decodeComposite, bind, pure, run_bind, run_getS, run_modifyS, run_pure]
+      rw [hrun]
+      rfl }
+
+theorem DComp.structM_endOk {P : EncState → Prop} (ms : List MComp) (hok : MComps.okAll P ms) (hend : Comps.endOkAll (MComps.cs ms))
     (hlast : Comps.eopLast (MComps.cs ms)) : (DComp.struct (MComps.cs ms)).EndOk where
   of_end := by
     intro d h
@@ -369,7 +412,8 @@ def Comp.ofMItem (m : MItem) (cur : Nat → Nat → Nat) : Comp := Comp.ofGItem 
 theorem Comp.ofMItem_ok (m : MItem) (h : m.Ok) (cur : Nat → Nat → Nat)
     (hcur : ∀ (s : EncState), (m.g.pair.enc s).cursorByte = cur s.origin s.cursorByte)
     (hshift : ∀ (org c p : Nat), cur (org + p) (c + p) = cur org c + p)
-    (horigin : ∀ (d : DecState), (m.g.pair.dec d).2.origin = d.origin) : (Comp.ofMItem m cur).OkM m.mid where
+    (horigin : ∀ (d : DecState), (m.g.pair.dec d).2.origin = d.origin) (P : EncState → Prop) :
+    (Comp.ofMItem m cur).OkM m.mid P where
   good := h.good
   notKey := by
     rcases h.kind with ⟨_, _, _, hp⟩ | ⟨_, _, _, _, hp⟩ <;> simp [Comp.ofMItem, Comp.ofGItem, hp, Param.kind, PKind.isKey]
@@ -377,7 +421,7 @@ theorem Comp.ofMItem_ok (m : MItem) (h : m.Ok) (cur : Nat → Nat → Nat)
   sup_ne_none := by
     have := h.val_ne_none
     simpa [Comp.ofMItem, Comp.ofGItem] using this
-  encode_eq := h.encode_eq
+  encode_eq := fun fuel hf s he hm _ => h.encode_eq fuel hf s he hm
   enc_cursor := hcur
   cur_shift := hshift
   dec_cursorBit := h.dec_cursorBit
@@ -389,13 +433,13 @@ theorem Comp.ofMItem_ok (m : MItem) (h : m.Ok) (cur : Nat → Nat → Nat)
 def Comp.ofMinMaxMid (l : MMLeaf) : Comp :=
   Comp.ofMItem l.toMid (fun org c => posOf l.bytePos org c + l.raw.length + l.tseq.length)
 
-theorem Comp.ofMinMaxMid_ok (l : MMLeaf) (h : l.okMid) : (Comp.ofMinMaxMid l).OkM true :=
+theorem Comp.ofMinMaxMid_ok (l : MMLeaf) (h : l.okMid) (P : EncState → Prop) : (Comp.ofMinMaxMid l).OkM true P :=
   Comp.ofMItem_ok l.toMid (l.toMid_ok h) _
     (fun s => by
       show (rawStep l.tseq ((Pair.bytesAt l.raw).enc { s with cursorByte := posOf l.bytePos s.origin s.cursorByte })).cursorByte = _
       rw [rawStep_cursor, bytesAt_enc_cursor])
     (fun org c p => by simp only [posOf_shift]; omega)
-    (fun _ => rfl)
+    (fun _ => rfl) P
 
 theorem Comp.ofMinMaxMid_endOk (l : MMLeaf) : (Comp.ofMinMaxMid l).EndOk := Comp.endOk_of_plain _ rfl
 
